@@ -241,15 +241,16 @@ class Layouts:
                 lo, hi = (idx[1][1] if idx[1] is not None else 0), idx[2][1]
                 val = flatten(self.layout(t[3], depth))
                 vex = explode(val)
-                if vex is None or len(vex) != hi - lo or lo < 0:
+                tv = total(val)
+                if lo < 0 or hi < lo or not (tv.is_const() and tv.c == hi - lo):
                     self._unknown(t, "(slice store of a different length)")
-                cur = base
-                for k, cell in enumerate(vex):
-                    vt = ("const", cell[1]) if cell[0] == "c" else (cell[1] if cell[0] == "t" else None)
-                    if vt is None:
-                        self._unknown(t, "(slice store of a composite value)")
-                    cur = self._store(cur, lo + k, vt, t)
-                return cur
+                if vex is not None and all(cell[0] in ("c", "t") for cell in vex):
+                    cur = base
+                    for k, cell in enumerate(vex):
+                        cur = self._store(cur, lo + k, ("const", cell[1]) if cell[0] == "c" else cell[1], t)
+                    return cur
+                # wider fields / digests / opaque values of the right total length: buf[lo:hi] = v is buf[:lo] + v + buf[hi:]
+                return flatten(self._slice(base, 0, lo, t) + val + self._slice(base, hi, None, t))
             if not (is_const(idx) and isinstance(idx[1], int)):
                 self._unknown(t, "(non-constant store index)")
             return self._store(base, idx[1], t[3], t)
@@ -292,6 +293,10 @@ class Layouts:
     # ------------------------------------------------------------------ helpers
     def _store(self, base: Layout, idx: int, val: Term, t) -> Layout:
         ex = explode(base)
+        if (ex is None or any(e[0] not in ("c", "t") for e in ex)) and idx >= 0:
+            # a buffer with wider fields in it: buf[i] = v is buf[:i] + [v] + buf[i+1:] (fails, as before, when i falls inside a field)
+            one = Const(bytes([val[1]])) if is_const(val) and isinstance(val[1], int) and 0 <= val[1] <= 255 and not isinstance(val[1], bool) else Byte(val)
+            return flatten(self._slice(base, 0, idx, t) + [one] + self._slice(base, idx + 1, None, t))
         if ex is None or not (0 <= idx < len(ex)):
             self._unknown(t, "(store outside a fixed-size buffer)")
         out: Layout = []
